@@ -103,9 +103,10 @@ Definition f32_of (tab : list (Q * Z)) (q : Q) : Z :=
 
 (* 0 = agree; 1 model compiles, library raised (or vice versa); 2 constant not found; 3 graph_ok false;
    4 wf_def false; 5 bytes differ *)
-Definition bridge_check (T : Graph.optabs) (strict guard : bool) (p : Graph.prog)
+(* cmp = Graph.compile applied to its tables and flags (kept abstract: only its type matters here) *)
+Definition bridge_check (cmp : Graph.prog -> Graph.res Graph.graph) (p : Graph.prog)
            (name : bytes) (pnames : list (bytes * Z)) (tab : list (Q * Z)) (real : option bytes) : Z :=
-  match Graph.compile T strict guard p, real with
+  match cmp p, real with
   | Graph.Err _, None => 0
   | Graph.Err _, Some _ => 1
   | Graph.Ok _, None => 1
